@@ -247,7 +247,8 @@ def dephase_measurements(
         if isinstance(gate, ops.MeasurementGate):
             key = value.MeasurementKey.parse_serialized(gate.key)
             return ops.KrausChannel.from_channel(ops.phase_damp(1), key=key).on_each(op.qubits)
-        elif isinstance(op, ops.ClassicallyControlledOperation):
+        elif op.classical_controls:
+            # (also when the controlled operation carries tags)
             raise ValueError('Use cirq.defer_measurements first to remove classical controls.')
         return op
 
